@@ -737,6 +737,12 @@ impl HnswBackend {
     /// This is a stop-the-world operation for writers (and blocks readers while rebuilding).
     fn compact_tombstones(&self) -> Result<usize> {
         let snapshot_guard = self.persistence.as_ref().map(|p| p.snapshot_lock.write());
+        // Compaction renumbers internal ids, so no writer may be between its id lookup and its
+        // in-memory apply. With persistence the exclusive snapshot lock already waits for them;
+        // without persistence there is no snapshot lock, so the write gate (which every writer
+        // holds for that whole window) is what keeps them out. Same order as the writers:
+        // snapshot lock first, then the gate.
+        let _write_gate_guard = self.write_gate.lock();
 
         // Capture index construction params before we swap it.
         let (dimension, capacity, distance, m, ef_construction, disable_norm_check) = {
